@@ -31,7 +31,7 @@ def main():
     rng = c.rng
     R = Runner(c, drv)
     for i in range(100 if quick else 2500):
-        sp = gen_space(rng, rng.randint(0, 3))
+        sp = gen_space(rng, rng.randint(0, 3), unbounded=True)
         ops = [("EXT", "OExt")]
         for j in range(12):
             mode = ["in", "seam", "in", "seam"][j % 4]
@@ -46,11 +46,23 @@ def main():
     impl, model = R.run("c06")
     ndiff = 0; first_diff = None; nev = 0
     distinct = set()
+    gen_pred = None     # the extent law on the generated spaces, evaluated on the implementation's own numbers
+    import struct as _st
+    def _val(bitpat): return _st.unpack("<d", _st.pack("<Q", bitpat))[0]
     for (sp, ops), io, mo in zip(R.groups, impl, model):
         if sp.kind == "CO": distinct.add(sp.spec())
+        ext = None
         for (il, ct), a, m in zip(ops, io, mo):
             nev += 1
             w = a.split()
+            try:
+                if w[:1] == ["ext"]:
+                    ext = _val(impl_bits(a)[0][0])
+                    if not (ext >= 0.0) and gen_pred is None: gen_pred = (sp.spec(), il, "getMaximumExtent() = %r is not a non-negative number" % ext)
+                elif w[:1] == ["dist"] and ext is not None and not sp.has("TU"):     # unbounded time: see the known finding below
+                    dv = _val(impl_bits(a)[0][0])
+                    if not (dv <= ext) and gen_pred is None: gen_pred = (sp.spec(), il, "distance %r between two states within the bounds exceeds getMaximumExtent() = %r" % (dv, ext))
+            except Exception: pass
             if w[:1] == ["eq"]: ok = (len(w) == 2 and float(w[1]) == m[0])
             else: ok = same_bits(impl_bits(a)[0], m)
             if not ok:
@@ -58,6 +70,8 @@ def main():
                 if first_diff is None or len(il) < len(first_diff[1]): first_diff = (sp.spec(), il, a, m)
     # ---- the laws on the implementation (all shipped spaces)
     npred = 0; first_pred = None
+    if gen_pred:
+        npred += 1; first_pred = ("SPACE " + gen_pred[0] + "\nEXT\n" + gen_pred[1], gen_pred[2] + " on 'SPACE %s'" % gen_pred[0])
     names = ["RV3", "SO2", "SO3", "SE2", "SE3", "TIME", "DISC", "TORUS", "SPHERE", "SPHERE1", "MOBIUS", "KLEIN", "DUBINS", "DUBINSSYM", "RS", "MIX"]
     n = 20000 if quick else 400000
     rc, o, e, s = vf.sh([drv], input="\n".join("LAWS %s %d %d" % (nm, n, c.seed) for nm in names) + "\n", timeout=3000)
@@ -87,6 +101,18 @@ def main():
         what = "CompoundStateSpace::getMaximumExtent skips components whose weight is below epsilon while distance() still adds them: weight 2^-60 on [0,1] gives extent 0 < distance 2^-60"
         if not c.known_finding("C06-compound-extent-skips-tiny-weights", what):
             c.violation("implementation violates C06: " + what, "# C06 replay\n" + kf)
+    # unbounded time: every state is within the (absent) bounds, the reported extent is the nominal 1
+    kf2 = "SPACE TU\nEXT\nDIST 0x0p+0 | 0x1.8p+2\n"
+    r4 = vf.sh([drv], input=kf2, timeout=60)
+    ol = r4[1].split("\n")
+    try:
+        e_tu = _val(impl_bits(ol[1])[0][0]); d_tu = _val(impl_bits(ol[2])[0][0])
+        if not (d_tu <= e_tu):
+            what = "TimeStateSpace without bounds reports getMaximumExtent() = %r while distance(0, 6) = %r (and any compound containing it inherits the finite extent)" % (e_tu, d_tu)
+            if not c.known_finding("C06-unbounded-time-extent", what):
+                c.violation("implementation violates C06: " + what, "# C06 replay\n" + kf2)
+    except Exception:
+        c.broken.append("C06 probe of the unbounded time space produced no output")
     c.cov.update({"evaluations": nev + n * len(names), "traces_validated_against_impl": len(R.groups), "distinct_nontrivial": len(distinct),
                   "rule": "generated spaces (nesting depth <= 3 over R^n with degenerate/huge/tiny bounds, SO2, bounded/unbounded time, discrete; weights incl. 0 and 1e-3) x 12 adversarial pairs each (in bounds, seam values +-pi and 1 ulp inside, edges, coincident, 1-ulp apart), compared bit for bit; plus %d random cases of every law on each of 16 shipped spaces; non-trivial = distinct compound space" % n,
                   "disagreements": ndiff, "predicate_failures": npred, "law_failures": {k: v for k, v in lawsum.items() if v}})
